@@ -27,6 +27,29 @@ def _c(cat, tech, text, note, ref):
 
 
 CLAIMED.update({
+    "C01": _c("other", "who-may-call + call-graph effect closure + dominance/origin in the commit funnels",
+              "The publication funnel is closed (resolved callers of CommitHandler::commit, write_manifest_file, the ManifestWriter value "
+              "and the three commit funnels equal the reviewed table); the only functions passing a `_versions/` path to a mutating store "
+              "call are the reviewed handlers; in every funnel the transaction file and the manifest build precede publication, their "
+              "errors stop it, and after a successful publication no storage-mutating call (whole-workspace call-graph closure over store "
+              "primitives) is reachable except the reviewed cache/cleanup hooks; the published number is <re-loaded latest>+1 with the "
+              "detached range refused, detached commits use random|MASK with V2 names.",
+              "Store-primitive atomicity is C02's; what a reader observes at a concrete crash point and that data files are closed "
+              "before being named are not decided; the inventory of `_versions/` writers covers the focus files (lance-table, "
+              "lance/src/dataset/**, lance/src/io/commit*).", "DESIGN.md 3 C01"),
+    "C05": _c("other", "must-pass-through (dominance) of normalisers in build_manifest / write_manifest_file",
+              "Every successful return of build_manifest is dominated by the fragment sort, tombstone removal and max-fragment-id update; "
+              "every arm introducing fragments assigns ids through the build's counter (which restarts at 0 only for Overwrite); arms "
+              "that change schema or fragment list drop stale indices; flags and max fragment id are recomputed before the handler is "
+              "called and the sanity checks precede publication and stop it on error.",
+              "The invariants as facts about data (row counts, deletion positions) are not decided.", "DESIGN.md 3 C05"),
+    "C10": _c("other", "ORDER/DOM analysis with constant propagation of the `copied` flag",
+              "External-store commit: stage -> put_if_not_exists -> finalize with the failure edge deleting staging and never finalising; "
+              "finalize: copy -> put_if_exists -> delete(staging), with copied=false never flipping/deleting and returning only after "
+              "head(final), copied=true always flipping before success; readers return store-provided paths only when final or through "
+              "the repair.",
+              "The external store's conditional writes are trusted; the DynamoDB implementation (feature off) is not analysed.",
+              "DESIGN.md 3 C10"),
     "C02": _c("other", "MIR dominance / origin / enum-arm analysis per commit handler",
               "Protocol shape of every CommitHandler::commit impl in the workspace, on every path of the function: "
               "PutMode::Create on the only write to the final path, staging+rename_if_not_exists, lock<head<write with the write only "
